@@ -76,6 +76,11 @@ class Crate:
                 return m.get("params", [])
         return []
 
+    def module_opt(self, key, name):
+        for mod, m in self.spec.get("modules", {}).items():
+            if key in m.get("functions", {}): return m.get(name)
+        return None
+
     def extern(self, key):
         return self.spec.get("externs", {}).get(key)
 
@@ -231,6 +236,8 @@ class Emitter:
             if n == "self":
                 return N("tpath", 0, segs=[(self.self_type, [])])
             info = self.lookup(n)
+            if info is None and n in self.c.consts:
+                return self.strip_ref(self.c.consts[n]["ty"])
             return self.strip_ref(info["ty"]) if info and info["ty"] else None
         if k == "field":
             t = self.typeof(e["e"])
@@ -280,6 +287,17 @@ class Emitter:
             return None
         if k == "struct":
             return N("tpath", 0, segs=[(e["path"][-1] if e["path"][-1] != "Self" else self.self_type, [])])
+        if k == "block":
+            return self.typeof(e["tail"]) if e["tail"] is not None else None
+        if k == "if":
+            t = self.typeof(e["then"])
+            if t is None and e["els"] is not None: t = self.typeof(e["els"])
+            return t
+        if k == "match":
+            for a in e["arms"]:
+                t = self.typeof(a["body"])
+                if t is not None: return t
+            return None
         return None
 
     def resolve_path_fn(self, p):
@@ -302,8 +320,10 @@ class Emitter:
             # trait-object / trait impl methods
             for k in self.c.method_index.get(name, []):
                 if k.startswith(tn + "@"): return k
-            if tn in self.c.structs or tn in self.c.enums or tn in self.c.spec.get("types", {}):
-                return None if name in BUILTIN_METHODS else None
+            if tn in self.c.structs or tn in self.c.enums or tn in self.c.spec.get("types", {}) or tn in self.c.spec.get("opaque_types", []):
+                return None
+            if tn not in ("Vec", "Option", "Result", "String", "str", "Box", "HashMap") and tn not in INT_TYPES and name not in BUILTIN_METHODS and name not in MUT_BUILTINS:
+                return None   # a method of a type the translator knows nothing about
         if name in BUILTIN_METHODS or name in MUT_BUILTINS:
             return None
         cands = [k for k in self.c.method_index.get(name, []) if "::" in k and "@" not in k]
@@ -900,6 +920,12 @@ class Emitter:
         if e["k"] == "mcall" and e["name"] in MUT_BUILTINS and self.resolve_method(e) is None:
             raise Unsupported(f"{self.file}:{e['line']}: Result of mutating builtin .{e['name']}() is inspected")
         pre, term, wb = self.call_term(e) if e["k"] in ("call", "mcall") and not (e["k"] == "call" and e["f"]["segs"][-1] in ("Ok", "Err")) else (*self.comp(e), [])
+        if wb and wb[0] == "MUTSELF" and len(wb) > 2 and wb[2] is not None:
+            # extern `&mut self` method returning a Result: its `res` template is the Result (a Res term) computed from
+            # the old receiver; bind it, then store the new receiver
+            r = self.fresh("r")
+            pre = list(pre) + [f"let {r} := {wb[2]}"] + self.assign_place(wb[1], term[5:], e["line"])
+            return pre, r
         if term.startswith("PURE:"): term = f"(pure {self.atom(term[5:])})"
         if wb:
             raise Unsupported(f"{self.file}:{e['line']}: Result of a call with &mut arguments is inspected")
@@ -1037,7 +1063,8 @@ class Emitter:
         line = e["line"]
         if k == "macro":
             n = e["name"]
-            if n in LOG_MACROS: return []
+            if n in LOG_MACROS:
+                return self.log_macro(e)
             if n in ("assert", "debug_assert"):
                 p, c = self.val(e["args"][0])
                 return p + [f"Rs.assert {self.atom(self.boolify(e['args'][0], c))} {self.site(line, 'assert')}"]
@@ -1085,6 +1112,49 @@ class Emitter:
             return pre + [f"let _ := {t}"]
         pre, t = self.val(e)
         return pre + [f"let _ := {t}"]
+
+    LOG_LEVEL = {"error": 1, "warn": 2, "info": 3, "debug": 4, "trace": 5}
+
+    def log_macro(self, e):
+        """`debug!(fmt, a, b…)`: with a module log parameter the arguments are evaluated (for their panics) when the
+        level is enabled — `log` macros evaluate their arguments lazily; arguments outside the subset are skipped"""
+        lp = self.c.module_opt(self.key, "log_param")
+        if lp is None or e["name"] not in self.LOG_LEVEL or e.get("raw") is None:
+            return []
+        from rsparse import Parser, Tok
+        toks = list(e["raw"])
+        # split at top-level commas
+        parts, cur, depth = [], [], 0
+        for t in toks:
+            if t.k == "p" and t.v in "([{": depth += 1
+            if t.k == "p" and t.v in ")]}": depth -= 1
+            if t.k == "p" and t.v == "," and depth == 0:
+                parts.append(cur); cur = []
+            else:
+                cur.append(t)
+        if cur: parts.append(cur)
+        body = []
+        for part in parts[1:]:
+            # named argument `name = expr`
+            if len(part) >= 2 and part[0].k == "id" and part[1].k == "p" and part[1].v == "=":
+                part = part[2:]
+            snap = self.snapshot()
+            try:
+                ps = Parser.__new__(Parser)
+                ps.toks = part + [Tok("eof", None, e["line"])]
+                ps.i = 0
+                ex = ps.parse_expr()
+                pre, t = self.val(ex)
+            except Exception:
+                self.restore(snap)
+                continue
+            if not pre and not has_action(t):
+                self.restore(snap)
+                continue
+            body += pre + [f"let _ := {t}"]
+        if not body:
+            return []
+        return [f"if {lp} ≥ {self.LOG_LEVEL[e['name']]} then"] + indent(body + ["pure ()"], 2)
 
     def boolify(self, e, t):
         return t
@@ -1544,6 +1614,7 @@ class Emitter:
         for n, t in self.c.module_params_of(self.key):
             params.append(f"({n} : {t})")
             self.declare(n, mut=False)
+        self.extra_params = list(self.opts.get("extra_params", []))
         if f["selfk"] is not None:
             st = N("tpath", f["line"], segs=[(self.self_type, [])])
             params.append(f"(self : {self.lean_type(st)})")
@@ -1577,6 +1648,8 @@ class Emitter:
         body += self.tail(blk["tail"])
         self.pop_scope()
         self.pop_scope()
+        for n, t in self.extra_params:
+            params.append(f"({n} : {t})")
         name = self.c.lean_fn_name(self.key)
         head = f"def {name} " + " ".join(params) + f" : Res {rty} := do"
         src = f"/-- `{self.key}` — {self.file}:{f['line']} -/"
@@ -1651,7 +1724,7 @@ BUILTIN_METHODS = {
     "rev": "{self}.reverse", "sum": "{self}.sum", "map": _closure_map,
     "is_some": "{self}.isSome", "is_none": "{self}.isNone", "unwrap_or": "({self}.getD {0})",
     "contains": "({self}.contains {0})", "min": "(min {self} {0})", "max": "(max {self} {0})",
-    "position": "{self}.pos", "finish": "(H {self})", "as_secs": "{self}.secs", "subsec_nanos": "{self}.nanos", "get": "{self}[{0}]?", "concat": "{self}.flatten", "starts_with": "({0}.isPrefixOf {self})",
+    "position": "{self}.pos", "finish": "(H {self})", "ip": "{self}", "as_secs": "{self}.secs", "subsec_nanos": "{self}.nanos", "get": "{self}[{0}]?", "concat": "{self}.flatten", "starts_with": "({0}.isPrefixOf {self})",
 }
 
 
